@@ -236,7 +236,8 @@ MEDIA = ['', 'all', 'print', 'screen, tv', 'screen and (min-width: 100px)']
 MEDIA_CANON = {'': 'all', 'all': 'all', 'print': 'print', 'screen, tv': 'screen, tv',
                'screen and (min-width: 100px)': 'screen and (min-width: 100px)'}
 URLFORMS = ['img/x.png', '../x.png', './y.png', 'x.png?v=1', 'x.svg#frag', 'x.png?a=b#c', 'x%20y.png', 'a b.png', '../../far.png',
-            '/abs/x.png', '//cdn.example/x.png', 'http://cdn.example/p/x.png', 'data:image/png;base64,AAAA', 'sub/../z.png', 'é.png']
+            '/abs/x.png', '//cdn.example/x.png', 'http://cdn.example/p/x.png', 'data:image/png;base64,AAAA', 'sub/../z.png', 'é.png',
+            '?img=logo', '.', './', 'img/..', '../', './a:b.png']
 KINDS = ['style', 'style', 'style', 'media', 'fontface', 'page', 'namespace', 'comment']
 
 
